@@ -77,6 +77,8 @@ func calls(c Case) (out []call) {
 		call{style: "defun", src: wrap("(progn " + def + " (" + name + args + "))"), defun: name},
 		call{style: "funcall-lambda", src: wrap("(funcall " + lam + args + ")")},
 		call{style: "funcall-name", src: wrap("(progn " + def + " (funcall '" + name + args + "))"), defun: name},
+		call{style: "funcall-function", src: wrap("(progn " + def + " (funcall #'" + name + args + "))"), defun: name},
+		call{style: "apply-name", src: wrap("(progn " + def + " (apply '" + name + " '(" + strings.Join(c.Args, " ") + ")))"), defun: name},
 	)
 	for k := 0; k <= len(c.Args); k++ {
 		lst := "'(" + strings.Join(c.Args[k:], " ") + ")"
@@ -101,10 +103,12 @@ func runA(c Case) *h.Result {
 	switch {
 	case v.reject != "":
 		res.Classes = append(res.Classes, "A:must-reject:"+v.reject)
-	case v.dontcare != "":
-		res.Classes = append(res.Classes, "A:open:"+v.dontcare)
 	default:
-		res.Classes = append(res.Classes, "A:valid")
+		if v.openTail != "" {
+			res.Classes = append(res.Classes, "A:open-tail:"+v.openTail)
+		} else {
+			res.Classes = append(res.Classes, "A:valid")
+		}
 		for _, fl := range []struct {
 			on    bool
 			label string
@@ -154,7 +158,6 @@ func runA(c Case) *h.Result {
 			if in {
 				return fail("the call must be rejected (%s) but the body ran", v.reject)
 			}
-		case v.dontcare != "":
 		default:
 			if o.Kind != ev.Value {
 				if v.errOK {
@@ -209,7 +212,8 @@ func excludedA(c Case, v verdict) string {
 
 // ---- generator ---------------------------------------------------------------
 
-var namePool = []string{"a", "b", "c", "d", "e", "f", "g", "h", "i", "j", globalVar}
+// (e is a constant in slip and can not be a parameter)
+var namePool = []string{"a", "b", "c", "d", "f", "g", "h", "i", "j", "k", globalVar}
 
 func genDefault(rt *rapid.T, earlier []string, label string) string {
 	switch rapid.IntRange(0, 9).Draw(rt, label+"-defkind") {
